@@ -33,6 +33,11 @@ Theorem failed_op_noop : forall s o s' e, step s o = (s', Some e) -> s' = s.
 Proof. exact step_failed_noop. Qed.
 Print Assumptions failed_op_noop.
 
+(* ViewSecrets, GetWalletSeed, GetWallet / View change nothing, whatever they return *)
+Theorem read_only_op_noop : forall s o, is_read o = true -> fst (step s o) = s.
+Proof. exact read_noop. Qed.
+Print Assumptions read_only_op_noop.
+
 (* no two wallets in memory share a fingerprint, and serv.fingerprints is
    exactly the set of fingerprints of the wallets in memory *)
 Theorem fingerprints_unique : forall ops, forallb wf_op ops = true ->
